@@ -298,6 +298,10 @@ def check_C08(ctx):
     gated_numbering(ctx)
     stress_numbering(ctx)
     stress_log_numbering(ctx)
+    # the numbering across log retention on a primary (KevoRetention!NextAbove: the files retention may delete never include the
+    # one that records the highest number given so far), walks replayed on a real primary as under C02
+    from props import crash as _crash
+    _crash.retention(ctx, 'C08')
     # crash recoveries: the committed crash programs (large, fragmented entries; unsynced log) and two generated ones, stopped at
     # hook sites incl. torn final writes; after the recovery the numbering must continue behind the surviving operations
     # (TRACE_Durable!TObs: seq = number of surviving operations; then further writes, reopen, observed again).  The
